@@ -413,6 +413,8 @@ def parse_body(f):
 
 def parse_module(text):
     mod = Module()
+    m_ = __import__('re').search(r'^@llvm\.global_ctors = .*$', text, __import__('re').M)
+    mod.text = m_.group(0) if m_ else ''      # only the constructor table is kept
     lines = text.split('\n')
     i = 0
     n = len(lines)
